@@ -330,6 +330,37 @@ def run(fx, tier):
                     v.check(wt == 1, 'R-PAIR', '%s:path%d:quota' % (name, pi),
                             'path holding quota completes with free_pid(id, %s)' % bool(wt),
                             key='C07:R-PAIR:publish_send_op::%s:quota-not-returned' % (f.tag or f.n), where=fr.where())
+    # the sender learns the limit of a NEW connection only in resend(): both parties that notice a completed (re)connect
+    # (the reader and the write completion) call it on the try_again edge, unconditionally — otherwise the quota of the
+    # previous connection (or "unlimited") stays in force
+    n_rs = 0
+    for f in list(fx.functions(cls='assemble_op', name='operator()')) + list(fx.functions(cls='async_sender', name='operator()')):
+        if f.lam or (f.cls == 'assemble_op' and f.tag != 'on_read') or (f.cls == 'async_sender' and len(f.params) < 2):
+            continue
+        calls = [(b, i, l) for b, i, l, c in f.calls() if callee_name(c) == 'resend' and callee_cls(c) == 'async_sender']
+        inst = '%s::operator()%s:resend-on-reconnect [%s]' % (f.cls, '(%s)' % f.tag if f.tag else '', f.tu)
+        n_rs += 1
+        if not calls:
+            v.fail('R-DOM', inst, 'the reconnect edge never calls async_sender::resend()', key='C07:R-DOM:%s:resend-on-reconnect' % f.cls, where=f.file)
+            continue
+        ok = False
+        for b, i, l in calls:
+            gs = edge_guards(f, b)
+            on_edge = False
+            extra = []
+            for cond, pol, gb in gs:
+                cm = comparison(origin(f, cond), pol)
+                if cm and cm[0] == '==' and contains([cm[1], cm[2]], lambda n: n.get('ce') == 'try_again' or n.get('n') == 'try_again'):
+                    on_edge = True
+                else:
+                    extra.append(cm[0] if cm else '?')
+            if on_edge and not extra:
+                ok = True
+        v.check(ok, 'R-DOM', inst, 'resend() (which re-reads Receive Maximum and refills the quota) is called on the try_again edge with no further condition',
+                key='C07:R-DOM:%s:resend-on-reconnect' % f.cls, where=f.file)
+    if n_rs < 2:
+        raise AnalysisBroken('reader / write-completion continuations not found')
+
     # the Receive Maximum is read from mqtt_ctx::ca_props: it must be the CONNACK of THIS connection (shared with C15)
     from c15 import capability_source
     if 'R-OWN' not in v.rules:
